@@ -417,6 +417,11 @@ def check_core(case, desc, noises, circ, objs, sub, icls, cl, nontrivial):
                 sp[1] = newp
                 ob.noise_parameters["Depolarizing probability"] = newp
                 changed += 1
+            elif sp is not None and sp[0] == "loss" and type(ob).__name__ == "PhotonLoss":
+                newr = float(sp[1]) / 2 if float(sp[1]) > 0 else 0.25
+                sp[1] = newr
+                ob.noise_parameters["loss rate"] = newr
+                changed += 1
 
     for i, nz in enumerate(noises2):
         if nz is None or objs[i] is None:
@@ -432,11 +437,13 @@ def check_core(case, desc, noises, circ, objs, sub, icls, cl, nontrivial):
         cl.append("strength_changed_in_place")
         rho_ref2, trace_ref2, rom2 = reference(desc, circ, objs=objs, noises=noises2)
         rho2 = np.asarray(compile_noisy(sub, icls, circ, "dm").rep_data.data)
-        if np.linalg.norm(rho2 - rho_ref2) > 1e-8:
+        if abs(np.trace(rho2).real - trace_ref2) > 1e-9 or np.linalg.norm(rho2 - rho_ref2) > 1e-8:
             raise Violation(sub, "state-mismatch", "dm", icls + ":strength_changed_in_place",
                             "after changing the depolarizing probabilities of the same noise objects the density matrix is not that of the new strengths")
         if not rom2:
             mix2 = mixture_of(compile_noisy(sub, icls, circ, "stab"))
+            if abs(sum(p for p, t in mix2) - trace_ref2) > 1e-9:
+                raise Violation(sub, "weight", "stab", icls + ":strength_changed_in_place", "after an in-place strength change: total weight %.10g, expected %.10g" % (sum(p for p, t in mix2), trace_ref2))
             tv0 = gs.present(dict(case["targets"][0], n=n))[2]
             want2 = float(np.real(np.vdot(tv0, rho_ref2 @ tv0)))
             got2 = sum(p * abs(np.vdot(tv0, branch_vector(rp.stabilizer_paulis(t), n))) ** 2 for p, t in mix2)
